@@ -125,7 +125,8 @@ class TTNO(TTNBase):
         if not basis.dummy_ttno:
             dummy_nodes = []
             for node in basis.node_list:
-                node = TreeNodeBasis([BasisDummy((id(node), "dummy"))])
+                sigmaqn = np.zeros((1, basis.qn_size), dtype=int)
+                node = TreeNodeBasis([BasisDummy((id(node), "dummy"), sigmaqn=sigmaqn)])
                 dummy_nodes.append(node)
             copy_connection(basis.node_list, dummy_nodes)
             new_basis = BasisTree(dummy_nodes[0])
@@ -913,7 +914,8 @@ class TTNS(TTNBase):
             ttno = TTNO(self.basis, ttno)
 
         assert bra is None  # not implemented yet
-        basis_node = TreeNodeBasis([BasisDummy("expectation dummy")])
+        sigmaqn = np.zeros((1, self.basis.qn_size), dtype=int)
+        basis_node = TreeNodeBasis([BasisDummy("expectation dummy", sigmaqn=sigmaqn)])
         basis_node_ttns = basis_node
         basis_node_ttno = basis_node.copy()
         basis_node_ttns.add_child(self.basis.root.copy())
